@@ -4,9 +4,9 @@ from __future__ import annotations
 
 import ast
 
-from ..astq import attr_stores, body_walk, dotted, src, walk_local, norm_stmt, fn_calls
+from ..astq import attr_stores, body_walk, dotted, src, walk_local, norm_stmt, fn_calls, tail
 from ..cfg import CFG
-from ..dataflow import ReachingDefs
+from ..dataflow import ReachingDefs, walk_table
 from ..loader import Undecided
 from ..report import Check
 from ..sched import JobStates, Typestate, writer_summary, state_store_sites, return_set, value_states
@@ -310,12 +310,34 @@ def r4_waiters(chk: Check):
     # experiment.wait leaves its loop only if exitMode or both counters are zero, waits on the notified condition
     aw = tree.func("scheduler.base", "experiment.wait.awaitcompletion")
     ga = CFG(aw.node)
-    brk = [n for n in ga.live if n.kind == "stmt" and isinstance(n.ast, ast.Break)]
+    import itertools
+    from ..cfg import T
+
+    def classify(n):
+        if isinstance(n.stmt, ast.Assert):
+            if n.kind != "test":
+                return None
+            # the branch that does not fail the assertion
+            failing = [l for m, l in n.succ if any(isinstance(k.ast, ast.Assert) and k.kind == "stmt" for k, _ in m.succ)]
+            return ("asserted", failing != [True])
+        return {"self.exitMode": ("exit", True), T("self.unfinishedJobs == 0"): ("nojobs", True), T("self.taskOutputQueueSize == 0"): ("noqueue", True)}.get(src(n.ast))
+
+    def stop(n):
+        if any(tail(c) == "wait" and "exitCondition" in src(c.func) for c in n.calls()):
+            return "waits"
+        if (n.kind == "test" and src(n.ast) == "self.failedJobs") or n is ga.exit or n is ga.raise_:
+            return "left"
+        return None
+
     conds = []
-    for b in brk:
-        conds.append(sorted((src(t.ast), pol) for t, pol in ga.guards(b) if t.kind == "test" and not isinstance(t.stmt, ast.Assert)))
-    want = [[("self.exitMode", True)], sorted([("self.exitMode", False), ("self.unfinishedJobs == 0", True), ("self.taskOutputQueueSize == 0", True)])]
-    chk.require(sorted(conds) == sorted(want), chk.fkey(aw, "loop exits"), f"experiment.wait leaves its loop under {conds}; expected exit mode, or no unfinished job and an empty task-output queue", chk.loc(aw.module, aw.node))
+    for ex, nj, nq in itertools.product([True, False], repeat=3):
+        outs = walk_table(ga, ga.entry, classify, {"exit": ex, "nojobs": nj, "noqueue": nq, "asserted": True}, lambda n: [], stop)
+        want_end = "left" if ex or (nj and nq) else "waits"
+        for o in outs:
+            unk = [u[0] for u in o.unknown if u[2] is None and not u[0].startswith("self.central is")]
+            if o.end != want_end or unk:
+                conds.append(f"exitMode={ex}, unfinished==0:{nj}, queue==0:{nq} -> {o.end}{' depending on ' + str(unk) if unk else ''}")
+    chk.require(not conds, chk.fkey(aw, "loop exits"), f"experiment.wait must leave its loop exactly in exit mode, or with no unfinished job and an empty task-output queue, and otherwise wait on the exit condition; found {conds[:3]}", chk.loc(aw.module, aw.node))
     waits = ga.call_nodes(lambda c: (dotted(c.func) or "").endswith("exitCondition.wait"))
     chk.require(len(waits) == 1, chk.fkey(aw, "waits on exitCondition"), "experiment.wait must wait on the exit condition that aio_submit notifies", chk.loc(aw.module, aw.node))
 
